@@ -19,6 +19,10 @@ def coords(tier):
         for c in itertools.combinations(ALPHA, n):
             out.append(list(c))
             out.append(list(c[::-1]))
+    # a long irregular coordinate (numpy switches membership/search algorithms with the array sizes)
+    long_ = np.cumsum([1., 2., 1., 3.] * 8).tolist()
+    out.append(long_)
+    out.append(long_[::-1])
     if tier == 'thorough':
         out.append([-3., -1., 0., 2.5, 2.75])
         out.append([10., 0., -10.])
@@ -96,7 +100,8 @@ class Prop(core.Prop):
     def bounds(self, tier):
         return {'coordinates': len(coords(tier)), 'representations': ['none', 'edges1d', 'nx2'],
                 'methods': METHODS, 'clean': ['none', 'mask'], 'bounds_opt': ['ignore', 'warn', 'error'],
-                'leftright': ['None', 'nan'], 'eps': EPS}
+                'leftright': ['None', 'nan'], 'eps': EPS, 'coordinate_dtypes': ['f8', 'i4', 'f4'],
+                'long_coordinate_cells': 32}
 
     def worker_init(self):
         core.load_lib()
@@ -109,6 +114,10 @@ class Prop(core.Prop):
         for ci, c in enumerate(coords(tier)):
             for rep in ('none', 'edges1d', 'nx2'):
                 yield {'coord': c, 'rep': rep}
+                if all(float(v).is_integer() for v in c) and (len(c) <= 3 or tier == 'thorough' or len(c) > 4):
+                    # the same coordinate stored as 32-bit integers / 32-bit floats; queries stay float64
+                    yield {'coord': c, 'rep': rep, 'ctype': 'i'}
+                    yield {'coord': c, 'rep': rep, 'ctype': 'f'}
         for unit in ('hours', 'days'):
             for desc in (False, True):
                 for tzkind in ('utc', 'naive', '+0530', '-0500'):
@@ -126,12 +135,12 @@ class Prop(core.Prop):
                         for part in ('in', 'out-far', 'out-near-lo', 'out-near-hi'):
                             yield dict(group, method=method, clean=clean, bounds=bopt, lr=lr, part=part)
 
-    def build(self, c, rep):
+    def build(self, c, rep, ctype='d'):
         P = lib.pnc()
         f = P.PseudoNetCDFFile()
         n = len(c)
         f.createDimension('x', n)
-        v = f.createVariable('x', 'd', ('x',))
+        v = f.createVariable('x', ctype, ('x',))
         v[:] = c
         e = edges_for(c)
         if rep == 'edges1d':
@@ -150,7 +159,8 @@ class Prop(core.Prop):
             return self.run_time(case)
         c, rep = case['coord'], case['rep']
         method, clean, bopt, lr, part = (case[k] for k in ('method', 'clean', 'bounds', 'lr', 'part'))
-        f, e = self.build(c, rep)
+        ctype = case.get('ctype', 'd')
+        f, e = self.build(c, rep, ctype)
         has_b = rep != 'none'
         uniform = bool(np.allclose(np.diff(c), np.diff(c)[0]))
         before = np.array(f.variables['x'][...]).tobytes()
@@ -176,9 +186,9 @@ class Prop(core.Prop):
                 judged.append((v, ok, inr))
         direction = 'asc' if c[0] < c[-1] else 'desc'
         scope = dict(method=method, rep=rep, direction=direction, clean=clean, bopt=bopt, lr=lr, part=part,
-                     uniform=uniform, n=len(c))
+                     uniform=uniform, n=len(c), ctype=ctype)
         sig = ('val2idx', method, direction, part.split('-')[0])
-        st = [h64('c16', c, rep)]
+        st = [h64('c16', c, rep, ctype)]
         if not judged:
             return result('empty', [], st, 0)
         vals = np.array([j[0] for j in judged])
@@ -254,7 +264,26 @@ class Prop(core.Prop):
                         pass      # nan cast to an integer: unspecified, the user asked for no cleaning
                     elif method == 'bounds' and bopt == 'ignore':
                         pass      # clamped end cell, bounds ignored as requested
-        nontriv = h64('c16', c, rep, method, clean, bopt, lr, part) if any(
+        if raised is None and not vs:
+            # the lookup is element-wise: repeating and reordering the queries must not change any answer
+            vals2 = np.concatenate([vals[::-1], vals[::2], vals])
+            try:
+                with np.errstate(all='ignore'):
+                    idx2 = f.val2idx('x', vals2, **kw)
+                exp2 = np.ma.concatenate([np.ma.atleast_1d(idx)[::-1], np.ma.atleast_1d(idx)[::2],
+                                          np.ma.atleast_1d(idx)])
+                same = np.array_equal(np.ma.getmaskarray(idx2), np.ma.getmaskarray(exp2)) and \
+                    np.array_equal(np.ma.filled(idx2, -9), np.ma.filled(exp2, -9))
+                if not same:
+                    k = int(np.flatnonzero((np.ma.filled(idx2, -9) != np.ma.filled(exp2, -9)) |
+                                           (np.ma.getmaskarray(idx2) != np.ma.getmaskarray(exp2)))[0])
+                    vs.append(viol('answer-depends-on-other-queries', sig,
+                                   'coordinate %s: value %r alone -> %s, among repeated/reordered queries -> %s'
+                                   % (c, float(vals2[k]), exp2[k], idx2[k]), **scope))
+            except Exception as ex:
+                vs.append(viol('in-range-raises', sig, 'repeated/reordered queries: %s: %r'
+                               % (type(ex).__name__, ex), exc=type(ex).__name__, **scope))
+        nontriv = h64('c16', c, rep, ctype, method, clean, bopt, lr, part) if any(
             v not in c for v in vals) else None
         return result('viol' if vs else ('ok-' + part), vs, st, 1, nontriv,
                       h64(repr(raised) if raised else np.ma.filled(idx, -9).tolist()) if not vs else None)
